@@ -413,7 +413,107 @@ def case_order(mon, ja, jb):
                   {"a": ja, "b": jb})
 
 
-CASES = {"roundtrip": case_roundtrip, "monotone_pair": case_monotone_pair,
+def epoch_views(e):
+    """Everything an Epoch says about its instant without options."""
+    def g(f):
+        try:
+            return f()
+        except Exception as ex:
+            return ("raised", type(ex).__name__)
+    return (g(e.jde), g(e.get_date), g(e.get_full_date), g(e.year), g(e.doy),
+            g(e.dow), g(e.mjd), g(e.julian), g(e.leap), g(lambda: str(e)),
+            g(lambda: float(e)), g(lambda: hash(e)))
+
+
+def case_objhistory(mon, seedval):
+    """One Epoch object through a random sequence of option-carrying reads
+    (utc=, leap_seconds=, local= are parameters of a read, not state) and
+    loads (every form of set(), with and without options): after each step
+    all its plain views are those of a fresh Epoch of the same JDE."""
+    from pymeeus.Epoch import Epoch
+    rng = random.Random(seedval)
+    e = Epoch(2451545.0)
+    steps = []
+    for _ in range(8):
+        mon.evals += 1
+        j, _c = gen_jde(rng)
+        if rng.random() < 0.5:
+            j = rng.uniform(2441317.5, 2462502.5)       # 1972..2029
+        y, mo, d, h, mi, us = gen_civil(rng)
+        op = rng.choice(("read", "read", "read-utc", "read-leap",
+                         "read-full-utc", "read-full-leap", "set-jde",
+                         "set-jde-utc", "set-jde-leap", "set-ymd",
+                         "set-ymd-utc", "set-epoch", "set-epoch-utc",
+                         "set-tuple", "iadd", "isub"))
+        # the time-scale options are quantified over 1950..2100 (C10); far
+        # outside, get_date(utc=True) meets datetime's year range
+        if op.endswith(("utc", "leap")):
+            j = rng.uniform(2441317.5, 2462502.5)
+            y = rng.randrange(1972, 2030)
+            d = min(d, 28)
+            if op.startswith("read") and not (2433282.5 < e.jde()
+                                              < 2488070.5):
+                op = "read"
+        try:
+            if op == "read":
+                epoch_views(e)
+            elif op == "read-utc":
+                e.get_date(utc=True)
+            elif op == "read-leap":
+                e.get_date(leap_seconds=rng.choice((0.0, 35.0, 10)))
+            elif op == "read-full-utc":
+                e.get_full_date(utc=True)
+            elif op == "read-full-leap":
+                e.get_full_date(leap_seconds=rng.choice((27.0, 37, 1)))
+            elif op == "set-jde":
+                e.set(j)
+            elif op == "set-jde-utc":
+                e.set(j, utc=True)
+            elif op == "set-jde-leap":
+                e.set(j, leap_seconds=rng.choice((0.0, 35.0, 12)))
+            elif op == "set-ymd":
+                e.set(y, mo, d, h, mi, us / 1e6)
+            elif op == "set-ymd-utc":
+                e.set(y, mo, d, h, mi, us / 1e6, utc=True)
+            elif op == "set-epoch":
+                e.set(Epoch(j))
+            elif op == "set-epoch-utc":
+                e.set(Epoch(j), utc=True)
+            elif op == "set-tuple":
+                e.set((y, mo, d + h / 24.0))
+            elif op == "iadd":
+                e += rng.choice((1, 0.5, rng.uniform(-500, 500)))
+            else:
+                e -= rng.choice((1, 0.25, rng.uniform(-500, 500)))
+            steps.append(op)
+            got = epoch_views(e)
+            fresh = epoch_views(Epoch(e.jde()))
+        except Exception as ex:
+            mon.dev("history.views==fresh-object",
+                    {"seed": seedval, "steps": steps + [op],
+                     "raised": repr(ex)})
+            return
+        # a fresh Epoch(jde) re-derives the JDE from the date fields: the
+        # float views may differ in the last place, the calendar ones may not
+        ok = (abs(got[0] - fresh[0]) <= 1e-9 and got[1:3] == fresh[1:3]
+              and got[5] == fresh[5] and got[7:9] == fresh[7:9]) \
+            if isinstance(got[0], float) and isinstance(fresh[0], float) \
+            else got == fresh
+        if ok and isinstance(got[1], tuple) and isinstance(fresh[1], tuple):
+            pass
+        elif got[1:3] != fresh[1:3]:
+            # dates within 1e-9 day of each other across a field boundary
+            ok = False
+        mon.check("history.views==fresh-object", ok,
+                  lambda: {"seed": seedval, "steps": list(steps),
+                           "object": repr(got)[:400],
+                           "fresh_object_of_same_jde": repr(fresh)[:400]})
+        if not ok:
+            return
+    mon.cls("epoch-object-with-history", ("ehist", seedval), steps)
+
+
+CASES = {"objhistory": case_objhistory, "roundtrip": case_roundtrip, "monotone_pair": case_monotone_pair,
          "forms": case_forms, "arith": case_arith, "order": case_order}
 
 
@@ -434,6 +534,10 @@ def run(mon, spec):
         case_roundtrip(mon, j, cls, log)
     mon.begin("monotone", [])
     check_monotone(mon, log)
+    for _ in range(max(50, spec["n_forms"] // 4)):
+        sv = rng.randrange(1 << 30)
+        mon.begin("objhistory", [sv])
+        case_objhistory(mon, sv)
     for _ in range(spec["n_forms"]):
         p = gen_civil(rng)
         mon.begin("forms", list(p))
